@@ -596,6 +596,9 @@ pub fn dispatch(op: &str, args: &[&str]) -> Option<Res> {
                     )
                 })
             }
+            // the generator reads LOG2_TAB from base/src/math/log.rs and passes it packed; the model answers
+            // with the constant its table theorem is about (the table is private and cfg(not(std)))
+            "tab.log2" => Ok(arg(args, 0)?.to_string()),
             "p.gcdrow" => {
                 let ty = arg(args, 0)?;
                 prim_width(ty)?;
